@@ -36,6 +36,27 @@ impl Shape {
     }
 }
 
+/// Rebuild a shape from a recorded operation list (replay files): the same operation semantics as `explore_shapes`.
+pub fn shape_from_ops(ops: &[String]) -> Result<Shape, String> {
+    let mut s = Shape { parents: vec![vec![]], branches: BTreeMap::from([("main".to_string(), 0)]), cur: "main".into(), ops: vec![] };
+    // layer E of C02 renames the first branch when the explored name would collide with "main"
+    if ops.iter().any(|o| o.starts_with("branch main/")) { s.branches = BTreeMap::from([("trunk".to_string(), 0)]); s.cur = "trunk".into(); }
+    for op in ops {
+        let tip = s.branches[&s.cur];
+        let (verb, arg) = op.split_once(' ').map(|(a, b)| (a, b.to_string())).unwrap_or((op.as_str(), String::new()));
+        match verb {
+            "commit" => { s.parents.push(vec![tip]); let id = s.parents.len() - 1; s.branches.insert(s.cur.clone(), id); }
+            "branch" => { s.branches.insert(arg.clone(), tip); s.cur = arg; }
+            "checkout" => { if !s.branches.contains_key(&arg) { return Err(format!("checkout of unknown branch {arg}")); } s.cur = arg; }
+            "merge-ff" => { let bt = *s.branches.get(&arg).ok_or("merge of unknown branch")?; s.branches.insert(s.cur.clone(), bt); }
+            "merge" => { let bt = *s.branches.get(&arg).ok_or("merge of unknown branch")?; s.parents.push(vec![tip, bt]); let id = s.parents.len() - 1; s.branches.insert(s.cur.clone(), id); }
+            other => return Err(format!("unknown operation {other:?}")),
+        }
+        s.ops.push(op.clone());
+    }
+    Ok(s)
+}
+
 /// BFS over commit / branch&checkout / checkout / merge from a one-commit repository.
 /// Returns (shapes, transitions explored).
 pub fn explore_shapes(max_commits: usize, max_extra_branches: usize) -> (Vec<Shape>, u64) {
